@@ -3210,6 +3210,8 @@ class Interp:
         if isinstance(base, ObjV):
             if attr in base.attrs:
                 return base.attrs[attr]
+            if attr == "__class__" and base.cls and base.cls in self.p.classes:
+                return FuncV("class", base.cls)
             if base.cls:
                 c = self.p.classes.get(base.cls)
                 m = c.lookup(attr, self.p) if c else None
@@ -3447,6 +3449,12 @@ class Interp:
         return ObjV(None, dict(items=idx), tag="slice")
 
     def call(self, n: ast.Call, env: dict) -> Val:
+        if isinstance(n.func, ast.Attribute) and n.func.attr == "__new__" and len(n.args) == 1 and not n.keywords:
+            # C.__new__(C) / cls.__new__(cls) / object.__new__(cls): an instance of the class with nothing set yet
+            cv = self.eval(n.args[0], env)
+            if isinstance(cv, FuncV) and cv.kind == "class" and cv.target in self.p.classes \
+                    and self.p.classes[cv.target].lookup("__new__", self.p) is None:
+                return ObjV(cv.target, {})
         fv = self.eval(n.func, env)
         pos = []
         for a in n.args:
